@@ -471,8 +471,8 @@ def run_dro_histories():
         def call(ns, inc=inc, fresh=fresh):
             return outcome(inc), outcome(fresh)
         obs, _ = check_function("rsome.dro:<history>", lambda c: {}, call,
-                                [post("final-formulation-equals-from-scratch-build", lambda ns, res: (
-                                    ("raised" in res[0]) == ("raised" in res[1]) and ("raised" in res[0] or not canon_diff(res[0], res[1]))))],
+                                [post("final-formulation-equals-from-scratch-build-or-history-is-rejected-loudly", lambda ns, res: (
+                                    "raised" in res[0] or ("raised" not in res[1] and not canon_diff(res[0], res[1]))))],
                                 mode="D", label=" ; ".join(inc), bounded=True, replay=None)
         out += obs
     return out
